@@ -541,6 +541,20 @@ def gen_matrix(family, seed):
         if mi == 1 and rng.random() < .5:
             spec['G'] = spec['G'][0]                      # documented 1-D form
         spec['ndarray'] = rng.random() < .3
+        # the other accepted argument shapes (own generator, the draws above keep their values): right-hand sides given as
+        # ONE ROW [[b0, b1, ..]] (the code flattens it), a single equality given as a 1-D A
+        r2 = random.Random(seed * 37 + 11)
+        if me and r2.random() < .35:
+            spec['b'] = [spec['b']]
+        if mi and r2.random() < .25:
+            spec['h'] = [spec['h']]
+        if me == 1 and r2.random() < .4:
+            spec['A'] = spec['A'][0]
+        if me and seed % 5 == 0:
+            # every fifth case: ONE equality whose right-hand side is given as [[b0]] (row form of a single value)
+            a0 = spec['A'] if not isinstance(spec['A'][0], list) else spec['A'][0]
+            b0 = spec['b'][0][0] if isinstance(spec['b'][0], list) else spec['b'][0]
+            spec['A'], spec['b'] = ([a0] if seed % 2 else a0), [[b0]]
     else:
         lo, hi = [], []
         for _ in range(n):
@@ -873,12 +887,15 @@ def check(spec, res, stats):
                 A, b, G, h = (spec[k] for k in 'AbGh')
                 var = spec['variables']
                 out = ms.linear_symbolic(conv(A), conv(b), conv(G), conv(h), variables=var)
-                n = len(G if G and not isinstance(G[0], list) else (A or G)[0])
-                nm = var if isinstance(var, list) else [(var or 'x') + str(i) for i in range(n)]
                 G2 = [G] if G and not isinstance(G[0], list) else (G or [])
+                A2 = [A] if A and not isinstance(A[0], list) else (A or [])
+                b2 = b[0] if b and isinstance(b[0], list) else (b or [])
+                h2 = h[0] if h and isinstance(h[0], list) else (h or [])
+                n = len((A2 or G2)[0])
+                nm = var if isinstance(var, list) else [(var or 'x') + str(i) for i in range(n)]
                 row = lambda r, c, v: '%s %s %r' % (' + '.join('%r*%s' % (float(a), x) for a, x in zip(r, nm)), c, float(v))
-                in_lines = [row(r, '==', v) for r, v in zip(A or [], b or [])] + \
-                           [row(r, '<=', v) for r, v in zip(G2, h or [])]
+                in_lines = [row(r, '==', v) for r, v in zip(A2, b2)] + \
+                           [row(r, '<=', v) for r, v in zip(G2, h2)]
                 cases, exact_only, extra_names = [_lines(out)], True, nm
             else:
                 var = spec['variables']
@@ -918,6 +935,12 @@ def check(spec, res, stats):
             return
         bad = validate(in_lines, cases, exact_only, stats, extra_names, gscale=fam.startswith('solve'))
     except (ValueError, SyntaxError) as e:
+        if fam in ('linear_symbolic', 'symbolic_bounds'):
+            # the input is a matrix / a box (always inside the class): text that is not a system of linear relations over
+            # the variables "holds" nowhere
+            res.violation(key + '/text-is-not-a-linear-system', '%s(%s) gave %r: %s' % (fam, jsonable({k: spec.get(k) for k in 'AbGh'} if
+                          fam == 'linear_symbolic' else {'min': spec.get('min'), 'max': spec.get('max')}), out, str(e)[:120]), jsonable(spec))
+            return
         stats.setdefault('unparsed', []).append('%s: %r -> %r: %s' % (fam, spec.get('text'), out, str(e)[:80]))
         res.case(key + '|unparsed', False)
         return
